@@ -261,6 +261,12 @@ func (x *ctx) ghostArr(st *state, name string, hi heapInfo) string {
 }
 
 func (x *ctx) ghostRead(st *state, name string, callee *ssa.Function, args []val) val {
+	if name == "ghost_iter" {
+		if x.curIter.t.s == "" {
+			x.fail("ghost_iter() used outside an invariant of a range-over-slice loop")
+		}
+		return x.curIter
+	}
 	hi := x.ghostInfo(name, callee.Signature)
 	if c, ok := x.ghostConst[x.ghostKey(name)]; ok {
 		return scalar(c)
@@ -1583,6 +1589,26 @@ func (x *ctx) loopEntry(st *state, fr *frame, b *ssa.BasicBlock, prev *ssa.Basic
 	}
 	penv := func(name string, t types.Type) (val, bool) { v, ok := x.params[name]; return v, ok }
 	evalInv := func(s *state, cl *Clause, fresh bool) string {
+		// ghost_iter(): the number of completed iterations of a range-over-slice loop (rangeindex + 1)
+		x.curIter = val{}
+		for _, in := range b.Instrs {
+			if ph, ok := in.(*ssa.Phi); ok && ph.Comment == "rangeindex" {
+				var pv val
+				if fresh {
+					pv = fr.regs[ph]
+				} else {
+					for pi, p := range b.Preds {
+						if p == prev {
+							pv = x.get(fr, st, ph.Edges[pi])
+						}
+					}
+				}
+				if pv.t.s != "" {
+					x.curIter = scalar(x.binop(token.ADD, pv.t, mkbv(1, 64), types.Typ[types.Int]))
+				}
+			}
+		}
+		defer func() { x.curIter = val{} }()
 		pc := x.pre.clone()
 		np := len(pc.pc)
 		l1 := x.clauseL1(pc, lcon, cl, penv)
@@ -2366,17 +2392,29 @@ func (x *ctx) siteAssertions(st *state, fr *frame, b *ssa.BasicBlock, in *ssa.Ca
 	if j := strings.Index(name, "["); j > 0 {
 		name = name[:j] // instantiated generic: Set[K V]
 	}
-	cls := x.con.Sites[name]
+	x.siteAssertionsAt(st, fr, b, name, false)
+}
+
+// siteAssertionsAt evaluates the `site <name>:` assertions at the current point of fr. The pseudo-site `return`
+// (qualified only: `site <function or closure>.return:`) is the point of every return instruction of that function.
+func (x *ctx) siteAssertionsAt(st *state, fr *frame, b *ssa.BasicBlock, name string, qualifiedOnly bool) {
+	var cls []*Clause
 	if x.siteHit == nil {
 		x.siteHit = map[string]bool{}
 	}
-	if len(cls) > 0 {
-		x.siteHit[name] = true
+	if !qualifiedOnly {
+		cls = x.con.Sites[name]
+		if len(cls) > 0 {
+			x.siteHit[name] = true
+		}
 	}
 	// `site <closure>.<callee>:` restricts the assertion to the calls inside that closure of the verified function
-	if q := fr.fn.Name() + "." + name; len(x.con.Sites[q]) > 0 {
+	q := fr.fn.Name() + "." + name
+	if len(x.con.Sites[q]) > 0 {
 		cls = append(append([]*Clause(nil), cls...), x.con.Sites[q]...)
-		x.siteHit[q] = true
+		if !qualifiedOnly {
+			x.siteHit[q] = true
+		}
 	}
 	if len(cls) == 0 {
 		return
@@ -2399,6 +2437,19 @@ func (x *ctx) siteAssertions(st *state, fr *frame, b *ssa.BasicBlock, in *ssa.Ca
 		return penv(n, t)
 	}
 	for _, cl := range cls {
+		if qualifiedOnly {
+			// a return that precedes the declaration of a local the assertion mentions: nothing to assert there
+			inScope := true
+			for _, n := range cl.P3 {
+				if _, ok := lenv(n, nil); !ok {
+					inScope = false
+				}
+			}
+			if !inScope {
+				continue
+			}
+			x.siteHit[q] = true
+		}
 		pc := x.pre.clone()
 		np := len(pc.pc)
 		l1 := x.clauseL1(pc, x.con, cl, penv)
